@@ -6,109 +6,80 @@ import (
 
 // ---------------------------------------------------------------- C04
 
-const vHeaderFmtA = "/*\nPackage p GENERATED BY gengo:"
-
-// vExpectP is what package p's generators must hand to the parser in the C04
-// scenario (types A and B, both generators render): it depends on nothing but
-// the scenario - in particular not on any map iteration order.
-// In the C04 scenario p has the types B, A and a (sorted: A, B, a - byte order, not
-// case-insensitive), and q has two files whose package docs carry the same tag key
-// with different values: the later file wins, so q's type is enabled for ga.
-func vExpectP(gen string) string {
-	first, second := "example.com/x/util", "example.com/y/util"
-	n1, n2 := "util", "yutil"
-	if gen == "gb" {
-		// gb references y/util first (on A), so y/util gets the short name
-		n1, n2 = "xutil", "util"
-	}
-	refA, refB := n1, n2
-	if gen == "gb" {
-		refA, refB = n2, n1
-	}
-	return vHeaderFmtA + gen + " \nDON'T EDIT THIS FILE\n*/\npackage p\n" +
-		"\nimport (\n\t" + n1 + " \"" + first + "\"\n\t" + n2 + " \"" + second + "\"\n)\n" +
-		"func helper_" + gen + "() {}\n" +
-		"var A_" + gen + " = 1\n" +
-		"var ref_A_" + gen + " " + refA + ".T\n" +
-		"var B_" + gen + " = 2\n" +
-		"var ref_B_" + gen + " " + refB + ".T\n" +
-		"var a_" + gen + " = 3\n" +
-		"var ref_a_" + gen + " " + refB + ".T\n"
-}
-
-// Verif_C04_Deterministic: module with p (types A, B) and q, both generators
-// rendering, All set. Under every map / sync.Map iteration order (all
-// permutations of every ranged map), and whichever packages are flagged direct,
-// the source handed to the parser for each file and the bytes of gengo.sum are
-// exactly the order-free expectation; running again on the result (with and
-// without Force) changes no file.
+// Verif_C04_Deterministic: module with p (types B, a, A) and q, both generators
+// rendering, All set. The scenario is executed twice in two separate module
+// roots: a reference run in which every map / sync.Map range iterates in
+// insertion order, and a run in which each range in turn iterates reversed or
+// rotated (single-deviation exploration), with the entrypoints flagged direct
+// in every possible way. Every generated file and gengo.sum of the second run
+// must be byte-identical to the reference run's (natively: two runs under Go's
+// random iteration order, repeated for an order-dependent counterexample).
+// Running again on the result (with and without Force) changes no file.
+// Nothing is assumed about WHICH order the declarations are emitted in.
 func Verif_C04_Deterministic() {
-	vReset()
 	pp, qp := "example.com/m/p", "example.com/m/q"
+	types := []vTypeSpec{{name: "B", tags: vBoth}, {name: "a", tags: vBoth}, {name: "A", tags: vBoth}}
+	qTypes := []vTypeSpec{{name: "A", tags: map[string][]string{}}}
+	setActs := func() {
+		vReset()
+		for _, g := range []string{"ga", "gb"} {
+			vSet(g, pp, "A", vActRender)
+			vSet(g, pp, "B", vActRender)
+			vSet(g, pp, "a", vActRender)
+		}
+		vSet("ga", qp, "A", vActRender)
+	}
+	// q: two source files with package docs that disagree on gengo:ga (later file wins: enabled)
+	vFileDocs = map[string][]string{"q.go": {"+gengo:ga=false"}, "q_2.go": {"+gengo:ga"}}
+
+	// reference run
+	verifsym.MapOrderBaseline(true)
+	setActs()
+	ref := vNewWorldAt("ref")
+	ref.addPkgNoFiles("p", true, "h1:p", types)
+	ref.addPkgNoFiles("q", true, "h1:q", qTypes)
+	err := ref.exec(true, false, nil, vProtoA(), &vGenB{})
+	verifsym.MapOrderBaseline(false)
+	verifsym.Assert(err == nil, "Execute fails")
+	refFiles := map[string]string{}
+	for f, d := range vSnapshot() {
+		if vHasPrefix(f, ref.root+"/") {
+			refFiles[f[len(ref.root):]] = d
+		}
+	}
+
+	// the run under exploration
+	setActs()
 	w := vNewWorld()
 	dp, dq := verifsym.Bool(), verifsym.Bool()
 	verifsym.Assume(dp || dq)
-	types := []vTypeSpec{{name: "B", tags: vBoth}, {name: "a", tags: vBoth}, {name: "A", tags: vBoth}}
-	// q: two source files with package docs that disagree on gengo:ga (later file wins: enabled)
-	vFileDocs = map[string][]string{"q.go": {"+gengo:ga=false"}, "q_2.go": {"+gengo:ga"}}
-	qTypes := []vTypeSpec{{name: "A", tags: map[string][]string{}}}
 	w.addPkgNoFiles("p", dp, "h1:p", types)
 	w.addPkgNoFiles("q", dq, "h1:q", qTypes)
-	for _, g := range []string{"ga", "gb"} {
-		vSet(g, pp, "A", vActRender)
-		vSet(g, pp, "B", vActRender)
-		vSet(g, pp, "a", vActRender)
-	}
-	vSet("ga", qp, "A", vActRender)
-	err := w.exec(true, false, nil, vProtoA(), &vGenB{})
+	err = w.exec(true, false, nil, vProtoA(), &vGenB{})
 	verifsym.Assert(err == nil, "Execute fails")
 	verifsym.Assert(len(vLogOf(qp)) > 0, "package doc tags of several files: the later file's value must win (q.A enabled for ga), whatever the iteration order")
-
+	got := map[string]string{}
+	for f, d := range vSnapshot() {
+		if vHasPrefix(f, w.root+"/") {
+			got[f[len(w.root):]] = d
+		}
+	}
+	for f, d := range refFiles {
+		d2, ok := got[f]
+		verifsym.Assert(ok, "a file of the reference run is missing under another iteration order / entrypoint order")
+		verifsym.Assert(!ok || d2 == d, "a generated file or gengo.sum differs between two runs on the same input (iteration order / entrypoint order)")
+	}
+	for f := range got {
+		_, ok := refFiles[f]
+		verifsym.Assert(ok, "a file appears under another iteration order / entrypoint order that the reference run did not write")
+	}
 	sum, ok := verifsym.FSGet(w.root + "/gengo.sum")
 	verifsym.Assert(ok && sum == pp+" h1:p\n"+qp+" h1:q\n", "gengo.sum is not the sorted current hashes")
-	// natively (formatted output): declarations appear in sorted type order
-	d, ok := verifsym.FSGet(vGenFile(w, "p", "ga"))
-	verifsym.Assert(ok, "file missing")
-	ia, ib, il := -1, -1, -1
-	for i := 0; i+4 <= len(d); i++ {
-		if ia < 0 && d[i:i+4] == "A_ga" {
-			ia = i
-		}
-		if ib < 0 && d[i:i+4] == "B_ga" {
-			ib = i
-		}
-		if il < 0 && d[i:i+4] == "a_ga" {
-			il = i
-		}
-	}
-	verifsym.Assert(ia >= 0 && ib > ia && il > ib, "declarations are not emitted in sorted (byte order) type order A, B, a")
-
-	// engine only: the exact source text handed to the parser (natively the file is reformatted)
-	if verifsym.Symbolic() {
-		src := verifsym.ParsedSources()
-		found := 0
-		for i := 0; i+1 < len(src); i += 2 {
-			for _, g := range []string{"ga", "gb"} {
-				if src[i] == vGenFile(w, "p", g) {
-					found++
-					// compared from the package clause on: the wording of the header comment is not prescribed
-					verifsym.Assert(vFromPackageClause(src[i+1]) == vFromPackageClause(vExpectP(g)), "generated source for p depends on iteration order (or differs from the expectation)")
-				}
-			}
-		}
-		verifsym.Assert(found == 2, "p's two files were not both generated")
-	}
 
 	// second run on the result: fixed point
 	snap := vSnapshot()
 	force := verifsym.Bool()
-	vReset()
-	for _, g := range []string{"ga", "gb"} {
-		vSet(g, pp, "A", vActRender)
-		vSet(g, pp, "B", vActRender)
-		vSet(g, pp, "a", vActRender)
-	}
-	vSet("ga", qp, "A", vActRender)
+	setActs()
 	w.pkgs, w.local, w.sums = map[string]gengotypesPackage{}, map[string]bool{}, map[string]string{}
 	w.addPkgNoFiles("p", dp, "h1:p", types)
 	w.addPkgNoFiles("q", dq, "h1:q", qTypes)
@@ -124,14 +95,4 @@ func Verif_C04_Deterministic() {
 	}
 	vFileDocs = nil
 	verifsym.Reach("end")
-}
-
-// vFromPackageClause: the source from its package clause on.
-func vFromPackageClause(s string) string {
-	for i := 0; i+9 <= len(s); i++ {
-		if s[i:i+9] == "\npackage " {
-			return s[i+1:]
-		}
-	}
-	return s
 }
